@@ -128,6 +128,75 @@ func g9Row(c *Ctx, name, short string, fi *FuncInfo, in *Interp, arg *VOpaque, r
 			nested[pc.arg] = a
 		}
 	}
+	// a predicate that walks the contained types itself (a work list instead of recursion): no nested answers to go by; the
+	// specification is evaluated over the kinds the run decided for the type and for everything it contains
+	if len(nested) == 0 && (kind == "*types.Struct" || kind == "*types.Array") && b.Known {
+		nilBasic := false
+		for _, d := range in.decisions {
+			if strings.Contains(d.Sym, "UntypedNil") && d.Choice == 0 {
+				nilBasic = true
+			}
+		}
+		var spec func(o *VOpaque, depth int) int // 1 accepted, 0 refused, -1 not examined
+		spec = func(o *VOpaque, depth int) int {
+			if o == nil || depth > 6 {
+				return -1
+			}
+			for _, d := range in.decisions {
+				if (strings.Contains(d.Sym, "hasEqualMethod("+o.Origin+",)") || strings.Contains(d.Sym, "MethodInputParam("+o.Origin+",)")) && d.Choice == 0 {
+					return 0
+				}
+			}
+			uu := underlyingVal(o)
+			if uu == nil {
+				return -1
+			}
+			switch uu.Kind {
+			case "*types.Basic":
+				if nilBasic {
+					return -1 // one of the basic components was the untyped nil: refused, but not known which
+				}
+				return 1
+			case "*types.Struct":
+				el, _ := uu.attrs["#elems"].(*VList)
+				if el == nil {
+					return -1
+				}
+				out := 1
+				for _, e := range el.Elems {
+					eo, _ := e.(*VOpaque)
+					var ft *VOpaque
+					if eo != nil {
+						ft, _ = eo.attrs["Type"].(*VOpaque)
+					}
+					switch spec(ft, depth+1) {
+					case 0:
+						return 0
+					case -1:
+						out = -1
+					}
+				}
+				return out
+			case "*types.Array":
+				e, _ := uu.attrs["Elem"].(*VOpaque)
+				return spec(e, depth+1)
+			case "":
+				return -1
+			}
+			return 0
+		}
+		want := spec(arg, 0)
+		switch {
+		case b.V && want == 1, !b.V && want == 0, !b.V && want == -1:
+			// (a refusal may stop at the first refused component; what was not examined then does not matter)
+			c.Rep.pass("G9")
+		case b.V && want == 0:
+			fail(strings.TrimPrefix(kind, "*types."), "a "+strings.ToLower(strings.TrimPrefix(kind, "*types."))+" is accepted although it contains a component that must be refused")
+		case b.V && want == -1:
+			fail(strings.TrimPrefix(kind, "*types."), "a "+strings.ToLower(strings.TrimPrefix(kind, "*types."))+" is accepted although not every type it contains was examined")
+		}
+		return
+	}
 	switch kind {
 	case "*types.Basic":
 		if (b.Known && b.V) || (!b.Known && strings.Contains(b.Sym, ".Kind()")) {
